@@ -84,6 +84,35 @@ def mk_int(t):
         return t.as_long()
     return SInt(t)
 
+def _mul_const(t, c):
+    """t * c with constant folding through nested constant multiplications."""
+    if c == 1:
+        return t
+    if c == 0:
+        return z3.IntVal(0)
+    if z3.is_app_of(t, z3.Z3_OP_MUL) and t.num_args() == 2:
+        a, b = t.arg(0), t.arg(1)
+        if z3.is_int_value(a):
+            return _mul_const(b, a.as_long() * c)
+        if z3.is_int_value(b):
+            return _mul_const(a, b.as_long() * c)
+    return t * c
+
+def _div_const(t, d):
+    """floor(t / d), d > 0, folding floor(floor(x/a)/b) = floor(x/(a*b))."""
+    if d == 1:
+        return t
+    if z3.is_app_of(t, z3.Z3_OP_IDIV) and z3.is_int_value(t.arg(1)) and t.arg(1).as_long() > 0:
+        return _div_const(t.arg(0), t.arg(1).as_long() * d)
+    if z3.is_app_of(t, z3.Z3_OP_MUL) and t.num_args() == 2 and z3.is_int_value(t.arg(0)):
+        # (c*x)/d with d | c or c | d (both exact for floor division by positive d)
+        c = t.arg(0).as_long()
+        if c > 0 and c % d == 0:
+            return _mul_const(t.arg(1), c // d)
+        if c > 0 and d % c == 0:
+            return _div_const(t.arg(1), d // c)
+    return t / d
+
 def mk_bool(t):
     if z3.is_true(t):
         return True
@@ -168,7 +197,10 @@ class SInt(object):
     def __pos__(self):
         return self
     def __abs__(self):
-        return mk_int(z3.If(self.t >= 0, self.t, -self.t))
+        # decide the sign on this path (keeps terms free of nested If)
+        if engine().known_nonneg(self.t) or engine().branch(self.t >= 0):
+            return self
+        return -self
     def __invert__(self):
         return mk_int(-self.t - 1)
 
@@ -176,7 +208,7 @@ class SInt(object):
         if isinstance(o, (SInt, SBool)):
             return engine().nl_mul(self, o)
         if isinstance(o, int):
-            return mk_int(self.t * int(o))
+            return mk_int(_mul_const(self.t, int(o)))
         if isinstance(o, (bytes, bytearray, SBuf, list, tuple, str)):
             return o * engine().concretize(self)
         return NotImplemented
@@ -218,7 +250,7 @@ class SInt(object):
         k = engine().concretize(k)
         if k < 0:
             raise ValueError('negative shift count')
-        return mk_int(self.t * (1 << k))
+        return mk_int(_mul_const(self.t, 1 << k))
     def __rlshift__(self, o):
         return o << engine().concretize(self)
     def __rshift__(self, k):
@@ -227,7 +259,7 @@ class SInt(object):
             raise ValueError('negative shift count')
         if k == 0:
             return self
-        return mk_int(self.t / (1 << k))
+        return mk_int(_div_const(self.t, 1 << k))
     def __rrshift__(self, o):
         return o >> engine().concretize(self)
 
@@ -303,6 +335,35 @@ class SByte(SInt):
         self.src = src
         self.idx = idx
         self.size = size
+
+
+def assemble_le(cs):
+    """Little-endian integer of byte cells; runs of bytes taken from one packed value
+    are put back together as (src div 256^i) mod 256^k (sound: src < 256^size was checked
+    when it was packed)."""
+    v = 0
+    p = 0
+    n = len(cs)
+    while p < n:
+        c = cs[p]
+        if isinstance(c, SByte):
+            k = 1
+            while (p + k < n and isinstance(cs[p+k], SByte) and cs[p+k].src is c.src
+                   and cs[p+k].idx == c.idx + k):
+                k += 1
+            if k > 1:
+                t = c.src
+                if c.idx:
+                    t = t / (1 << (8*c.idx))
+                if c.idx + k < c.size:
+                    t = t % (1 << (8*k))
+                v = v + mk_int(t) * (1 << (8*p))
+                p += k
+                continue
+        v = v + c * (1 << (8*p))
+        p += 1
+    return v
+
 
 
 class SBool(object):
@@ -573,7 +634,7 @@ class SBuf(object):
             return None
         if len(oc) != self.n:
             return False
-        return And(*[a == b for a, b in zip(self.cells(), oc)]) if oc else True
+        return cells_equal(self.cells(), oc)
 
     def __eq__(self, o):
         r = self._eqterm(o)
@@ -633,6 +694,76 @@ class SBuf(object):
     def release(self):
         pass
 
+    # -- bytes methods on symbolic content (length is concrete; content may be symbolic)
+
+    def _mk(self, cells):
+        return SBuf(cells, 'bytes' if self.kind == 'view' else self.kind)
+
+    def upper(self):
+        return self._mk([If(And(c >= 97, c <= 122), c - 32, c) for c in self.cells()])
+
+    def lower(self):
+        return self._mk([If(And(c >= 65, c <= 90), c + 32, c) for c in self.cells()])
+
+    @staticmethod
+    def _inset(c, chars):
+        if chars is None:
+            chars = b' \t\n\r\x0b\x0c'
+        cs = to_cells(chars)
+        return Or(*[c == k for k in cs]) if cs else False
+
+    def lstrip(self, chars=None):
+        cs = self.cells()
+        i = 0
+        while i < len(cs) and bool(self._inset(cs[i], chars)):
+            i += 1
+        return self._mk(cs[i:])
+
+    def rstrip(self, chars=None):
+        cs = self.cells()
+        j = len(cs)
+        while j > 0 and bool(self._inset(cs[j-1], chars)):
+            j -= 1
+        return self._mk(cs[:j])
+
+    def strip(self, chars=None):
+        return self.lstrip(chars).rstrip(chars)
+
+    def startswith(self, prefix):
+        pc = to_cells(prefix)
+        if len(pc) > self.n:
+            return False
+        return And(*[a == b for a, b in zip(self.cells(), pc)]) if pc else True
+
+    def endswith(self, suffix):
+        pc = to_cells(suffix)
+        if len(pc) > self.n:
+            return False
+        return And(*[a == b for a, b in zip(self.cells()[self.n-len(pc):], pc)]) if pc else True
+
+    def ljust(self, width, fill=b' '):
+        width = engine().concretize(width) if isinstance(width, (SInt, SBool)) else width
+        f = to_cells(fill)[0]
+        cs = self.cells()
+        return self._mk(cs + [f] * max(0, width - len(cs)))
+
+    def rjust(self, width, fill=b' '):
+        width = engine().concretize(width) if isinstance(width, (SInt, SBool)) else width
+        f = to_cells(fill)[0]
+        cs = self.cells()
+        return self._mk([f] * max(0, width - len(cs)) + cs)
+
+    def find(self, sub, start=0, end=None):
+        """Lowest index of sub (forks on the position)."""
+        sc = to_cells(sub)
+        cs = self.cells()
+        start, end, _ = slice(start, end).indices(len(cs))
+        for i in range(start, end - len(sc) + 1):
+            hit = And(*[cs[i+j] == sc[j] for j in range(len(sc))]) if sc else True
+            if bool(hit):
+                return i
+        return -1
+
     def __getattr__(self, name):
         # any other bytes method: only on concrete content, delegated to CPython
         if name.startswith('__'):
@@ -647,6 +778,24 @@ class SBuf(object):
     def _lt(self, o, strict_len):
         raise Unsupported('ordering of symbolic buffers')
     __lt__ = __gt__ = __le__ = __ge__ = lambda self, o: self._lt(o, 0)
+
+
+def cells_equal(ca, cb):
+    """Equality of two equally long byte-cell lists (non-forking).
+
+    Where cells carry provenance (bytes of one packed integer) whole little-endian groups
+    are compared as integers: for byte cells that is equivalent to cell-wise equality.
+    """
+    if len(ca) != len(cb):
+        return False
+    if not ca:
+        return True
+    if any(isinstance(c, SByte) for c in ca) or any(isinstance(c, SByte) for c in cb):
+        out = []
+        for i in range(0, len(ca), 8):
+            out.append(assemble_le(ca[i:i+8]) == assemble_le(cb[i:i+8]))
+        return And(*out)
+    return And(*[a == b for a, b in zip(ca, cb)])
 
 
 def buf_equal(a, b):
